@@ -15,7 +15,7 @@ PROP = "C17"
 LEAN_MODULES = ["Props.C17"]
 RULE = (
     "FULL ENUMERATION: files of 1-8 elements x every fault position k (and no fault) x {read, write} x file "
-    "families {register, block, section} x {path, caller buffer / content} x storage {text, binary} x exception "
+    "families {register, block, section} x {path, caller buffer (in-memory and a real file object opened by the caller) / content} x storage {text, binary} x exception "
     "types {ValueError, KeyError, custom Exception subclasses incl. one derived from StopIteration and one with a "
     "non-trivial constructor}. The k-th element's read/write raises a specific "
     "exception instance. Observed with a harness-side wrapper around builtins.open (and around the StringIO/BytesIO "
@@ -156,7 +156,11 @@ def run_impl(case):
                 data.append(E(data=i))
             f = F(data=data)
             dest_path = os.path.join(d, "out.dat")
-            buf = io.BytesIO() if binary else io.StringIO()
+            if where == "callerfile":
+                # a real file object opened (and owned) by the caller, before the recorder starts
+                buf = open(os.path.join(d, "caller.dat"), "wb" if binary else "w", **({} if binary else {"encoding": "utf-8", "newline": ""}))
+            else:
+                buf = io.BytesIO() if binary else io.StringIO()
             with Recorder() as rec:
                 try:
                     f.write(dest_path if where == "path" else buf)
@@ -167,6 +171,14 @@ def run_impl(case):
                     disk = fh.read()
                 want = expected_prefix if binary else expected_prefix.encode("utf-8")
                 out["output_is_prefix"] = disk == want
+            elif where == "callerfile":
+                out["buffer_closed"] = bool(buf.closed)
+                if not buf.closed:
+                    out["buffer_at_end"] = buf.tell() == len(expected_prefix)
+                    buf.close()
+                with open(os.path.join(d, "caller.dat"), "rb") as fh:
+                    disk = fh.read()
+                out["output_is_prefix"] = disk == (expected_prefix if binary else expected_prefix.encode("utf-8"))
             else:
                 out["buffer_closed"] = bool(buf.closed)
                 if not buf.closed:
@@ -263,7 +275,7 @@ def all_cases():
     for fam in ("register", "block", "section"):
         for binary in (False, True):
             for direction in ("write", "read"):
-                for where in ("path", "buffer"):
+                for where in ("path", "buffer") + (("callerfile",) if direction == "write" else ()):
                     for n in range(1, 9):
                         for k in [None] + list(range(n)):
                             for exc in EXC:
